@@ -9,9 +9,9 @@ REAL = ["spydrnet.composers.edif.edifify_names", "spydrnet.composers.edif.compos
         "spydrnet.parsers.edif (re-read)", "namespace manager plugin (EDIF policy on read)"]
 STUB = ["file system (SimFS)", "read chunking", "wall clock", "identity hash of IR objects"]
 
-ALPHA = "abABzZ019_-[]/\\ $&.:()+*#@!~<>=,;'"
+ALPHA = "abABzZ019_-[]/\\ $&.:()+*#@!~<>=,;'%"
 BASES = ["a", "A", "ab", "AB", "Ab", "data", "DATA", "net", "x_sdn_1_", "a_sdn_1_", "A_sdn_2_", "1", "_", "&a", "a-b",
-         "a b", "a_b", "a.b", "a/b", "a[0]", "a[1]", "A[0]", "\\a ", "$1", "abc", "aBc", "ABC"]
+         "a b", "a_b", "a.b", "a%b", "50%", "a/b", "a[0]", "a[1]", "A[0]", "\\a ", "$1", "abc", "aBc", "ABC"]
 
 
 def adversarial(rng):
@@ -45,7 +45,7 @@ class C17(Prop):
     relevant_ops = {"compose"}
     components_real = REAL
     components_stub = STUB
-    assumptions = ["names contain no double quote, newline or percent sign (EDIF string syntax)",
+    assumptions = ["names contain no double quote or newline (EDIF string syntax)",
                    "cable names of the form stem[digits] or stem_digits_ are how EDIF files spell one bit of bus "
                    "'stem' (the reader reassembles them); they are not generated as names of whole cables",
                    "the netlist is built under the DEFAULT policy, so sibling names are unique as written"]
